@@ -12,19 +12,11 @@
 //! budget (endless zero-length reads), a dead process (abort, stack overflow,
 //! failed huge allocation), a worker that stops reporting - is a violation.
 
-use std::collections::BTreeMap;
-use std::io::{BufRead, BufReader, Write};
-use std::process::{Command, Stdio};
-use std::sync::Mutex;
-use std::sync::atomic::{AtomicUsize, Ordering};
-use std::time::{Duration, Instant};
-
 use serde_json::json;
 
-use crate::campaign::{KnownFinding, load_known};
 use crate::check::c17;
+use crate::check::supervise::{CaseSource, Job};
 use crate::pq::{self, LieField};
-use crate::replay::{Expect, ReplayFile, scenario_to_file, write_replay};
 use crate::rng::{Digest, Rng};
 use crate::script::{Outcome, Scenario, Stmt, run_scenario};
 use crate::sim::{Chooser, Policy, RunEnd, SimConfig};
@@ -244,379 +236,66 @@ pub fn run_case(f: &BaseFile, m: &Mutation, case: usize) -> (String, String, u64
     ("ok".into(), String::new(), d.0)
 }
 
-pub fn signature(class: &str, detail: &str) -> String {
-    // digits are noise (lengths, indexes); the panic location stays
-    let (msg, loc) = match detail.rfind(" @ ") {
-        Some(i) => (&detail[..i], &detail[i + 3..]),
-        None => (detail, ""),
-    };
-    let norm: String = msg.chars().map(|c| if c.is_ascii_digit() { '#' } else { c }).collect();
-    let mut norm2 = String::new();
-    let mut prev = ' ';
-    for c in norm.chars() {
-        if !(c == '#' && prev == '#') {
-            norm2.push(c);
-        }
-        prev = c;
-    }
-    let loc = loc.replace("/repo/crates/", "");
-    format!("{class}|{}|{}", norm2.chars().take(110).collect::<String>(), loc)
-}
 
 // ---------------------------------------------------------------------------
-// Worker (child process)
+// Case source for the supervisor
 
-/// `glaresim c19-worker <seed> <tier> <file_idx> <from_case>`
-pub fn worker_main(args: &[String]) -> i32 {
-    let seed: u64 = args.first().and_then(|s| s.parse().ok()).unwrap_or(1);
-    let thorough = args.get(1).map(|s| s == "thorough").unwrap_or(false);
-    let file_idx: usize = args.get(2).and_then(|s| s.parse().ok()).unwrap_or(0);
-    let from: usize = args.get(3).and_then(|s| s.parse().ok()).unwrap_or(0);
-    let only: Option<usize> = args.get(4).and_then(|s| s.parse().ok());
-    // allocation without bound must fail inside the worker, not take the box down
-    unsafe {
-        let lim = libc::rlimit { rlim_cur: 6 << 30, rlim_max: 6 << 30 };
-        libc::setrlimit(libc::RLIMIT_AS, &lim);
-    }
-    let files = base_files(seed, thorough);
-    let f = match files.get(file_idx) {
-        Some(f) => f,
-        None => return 2,
-    };
-    let out = std::io::stdout();
-    // clean run first: its I/O call count sizes the I/O error family
-    let clean = run_scenario(&scenario_for(f, &Mutation::None, 0), Chooser::generating(Rng::new(0)), None);
-    let io_calls: u64 = clean.io_stats.iter().filter(|(k, _)| !k.starts_with("fault.") && !k.contains('.')).map(|(_, v)| *v).sum();
-    let cs = cases(f, io_calls);
-    {
-        let mut o = out.lock();
-        let _ = writeln!(o, "N {}", cs.len());
-        let _ = o.flush();
-    }
-    for (i, m) in cs.iter().enumerate().skip(from) {
-        if let Some(o) = only {
-            if i != o {
-                continue;
-            }
-        }
-        {
-            let mut o = out.lock();
-            let _ = writeln!(o, "C {i}");
-            let _ = o.flush();
-        }
-        let (class, detail, digest) = run_case(f, m, i);
-        let mut o = out.lock();
-        let _ = writeln!(o, "R {i} {class} {digest:016x} {}", detail.replace('\n', " "));
-        let _ = o.flush();
-    }
-    let mut o = out.lock();
-    let _ = writeln!(o, "E");
-    let _ = o.flush();
-    0
+pub struct C19Source;
+
+struct C19Job {
+    file: BaseFile,
+    cases: Vec<Mutation>,
 }
 
-// ---------------------------------------------------------------------------
-// Supervisor
-
-#[derive(Debug, Clone)]
-struct Finding {
-    class: String,
-    detail: String,
-    file: usize,
-    case: usize,
-    count: u64,
+impl Job for C19Job {
+    fn num_cases(&self) -> usize {
+        self.cases.len()
+    }
+    fn run_case(&self, case: usize) -> (String, String, u64) {
+        run_case(&self.file, &self.cases[case], case)
+    }
+    fn scenario(&self, case: usize) -> Scenario {
+        scenario_for(&self.file, self.cases.get(case).unwrap_or(&Mutation::None), case)
+    }
+    fn describe(&self, case: usize) -> String {
+        format!("{:?} on {}", self.cases.get(case), self.file.name)
+    }
+    fn sample(&self, total_cases: Option<usize>) -> serde_json::Value {
+        json!({"file": self.file.name, "bytes": self.file.bytes.len(), "cases": total_cases, "first_mutations": ["clean", "truncate to 0", "truncate to 1", "..."], "kind": match self.file.kind { Kind::Csv => "csv", Kind::Parquet(Some(_)) => "parquet (harness writer)", Kind::Parquet(None) => "parquet (repository testdata)" }})
+    }
 }
 
-fn matches_known<'a>(known: &'a [KnownFinding], class: &str, detail: &str) -> Option<&'a KnownFinding> {
-    known.iter().find(|k| k.status == "open" && k.properties.iter().any(|p| p == "C19") && (k.class.is_empty() || k.class == class) && (!k.contains.is_empty() || !k.any_of.is_empty()) && k.contains.iter().all(|c| detail.contains(c.as_str())) && (k.any_of.is_empty() || k.any_of.iter().any(|c| detail.contains(c.as_str()))))
-}
-
-pub fn run(tier: &str) -> i32 {
-    let start = Instant::now();
-    let thorough = tier == "thorough";
-    let seed: u64 = std::env::var("VERIF_SEED").ok().and_then(|s| s.parse().ok()).unwrap_or(1);
-    let threads: usize = std::env::var("VERIF_THREADS").ok().and_then(|s| s.parse().ok()).unwrap_or(16);
-    let root = std::env::var("VERIF_ROOT").unwrap_or_else(|_| "/verif".into());
-    let files = base_files(seed, thorough);
-    let nfiles = std::env::var("VERIF_RUNS").ok().and_then(|s| s.parse::<usize>().ok()).map(|n| n.min(files.len())).unwrap_or(files.len());
-    let exe = std::env::current_exe().expect("current exe");
-    let next = AtomicUsize::new(0);
-    let findings: Mutex<BTreeMap<String, Finding>> = Mutex::new(BTreeMap::new());
-    let totals: Mutex<(u64, u64, BTreeMap<String, u64>, std::collections::BTreeSet<u64>, Vec<serde_json::Value>)> = Mutex::new((0, 0, BTreeMap::new(), Default::default(), Vec::new()));
-    let case_timeout = Duration::from_secs(40);
-
-    std::thread::scope(|s| {
-        for _ in 0..threads {
-            s.spawn(|| {
-                loop {
-                    let fi = next.fetch_add(1, Ordering::Relaxed);
-                    if fi >= nfiles {
-                        break;
-                    }
-                    let mut from = 0usize;
-                    let mut total_cases: Option<usize> = None;
-                    let mut clean_digest: Option<u64> = None;
-                    // restart the worker after every death until the file is done
-                    loop {
-                        let mut child = match Command::new(&exe).arg("c19-worker").arg(seed.to_string()).arg(tier).arg(fi.to_string()).arg(from.to_string()).stdout(Stdio::piped()).stderr(Stdio::null()).spawn() {
-                            Ok(c) => c,
-                            Err(e) => {
-                                eprintln!("harness error: cannot spawn worker: {e}");
-                                return;
-                            }
-                        };
-                        let stdout = child.stdout.take().unwrap();
-                        let (tx, rx) = std::sync::mpsc::channel::<String>();
-                        let reader = std::thread::spawn(move || {
-                            for line in BufReader::new(stdout).lines().map_while(Result::ok) {
-                                if tx.send(line).is_err() {
-                                    break;
-                                }
-                            }
-                        });
-                        let mut in_flight: Option<usize> = None;
-                        let mut finished = false;
-                        let mut timed_out = false;
-                        loop {
-                            match rx.recv_timeout(case_timeout) {
-                                Ok(line) => {
-                                    let mut it = line.splitn(5, ' ');
-                                    match it.next() {
-                                        Some("N") => total_cases = it.next().and_then(|x| x.parse().ok()),
-                                        Some("C") => in_flight = it.next().and_then(|x| x.parse().ok()),
-                                        Some("R") => {
-                                            let case: usize = it.next().and_then(|x| x.parse().ok()).unwrap_or(0);
-                                            let class = it.next().unwrap_or("").to_string();
-                                            let digest = u64::from_str_radix(it.next().unwrap_or("0"), 16).unwrap_or(0);
-                                            let detail = it.next().unwrap_or("").to_string();
-                                            in_flight = None;
-                                            from = case + 1;
-                                            let mut t = totals.lock().unwrap();
-                                            t.0 += 1;
-                                            if case == 0 {
-                                                clean_digest = Some(digest);
-                                                if class != "ok" {
-                                                    *t.2.entry("clean_file_not_ok".into()).or_insert(0) += 1;
-                                                }
-                                            }
-                                            if class == "ok" {
-                                                if Some(digest) != clean_digest {
-                                                    let mut dd = Digest::new();
-                                                    dd.u64(fi as u64);
-                                                    dd.u64(digest);
-                                                    t.3.insert(dd.0);
-                                                }
-                                                *t.2.entry("outcome.rows_or_error".into()).or_insert(0) += 1;
-                                            } else {
-                                                *t.2.entry(format!("outcome.{class}")).or_insert(0) += 1;
-                                                drop(t);
-                                                let sig = signature(&class, &detail);
-                                                let mut fs = findings.lock().unwrap();
-                                                let e = fs.entry(sig).or_insert(Finding { class, detail, file: fi, case, count: 0 });
-                                                e.count += 1;
-                                            }
-                                        }
-                                        Some("E") => {
-                                            finished = true;
-                                            break;
-                                        }
-                                        _ => {}
-                                    }
-                                }
-                                Err(std::sync::mpsc::RecvTimeoutError::Timeout) => {
-                                    timed_out = true;
-                                    let _ = child.kill();
-                                    break;
-                                }
-                                Err(std::sync::mpsc::RecvTimeoutError::Disconnected) => break,
-                            }
-                        }
-                        let status = child.wait().ok();
-                        let _ = reader.join();
-                        if finished {
-                            break;
-                        }
-                        // the worker died or went silent
-                        let case = in_flight.unwrap_or(from);
-                        let (class, detail) = if timed_out {
-                            ("hang-cpu".to_string(), format!("worker silent for {}s while running the case (endless loop without I/O)", case_timeout.as_secs()))
-                        } else {
-                            use std::os::unix::process::ExitStatusExt;
-                            let sig = status.and_then(|s| s.signal());
-                            ("process-died".to_string(), format!("worker process died (signal {sig:?}, status {status:?}): abort, stack overflow or failed allocation"))
-                        };
-                        {
-                            let mut t = totals.lock().unwrap();
-                            t.0 += 1;
-                            *t.2.entry(format!("outcome.{class}")).or_insert(0) += 1;
-                        }
-                        let sig = signature(&class, &format!("{detail} file={}", files[fi].name));
-                        let mut fs = findings.lock().unwrap();
-                        let e = fs.entry(sig).or_insert(Finding { class, detail, file: fi, case, count: 0 });
-                        e.count += 1;
-                        drop(fs);
-                        from = case + 1;
-                        if let Some(n) = total_cases {
-                            if from >= n {
-                                break;
-                            }
-                        } else {
-                            // died before announcing its cases: give up on this file
-                            break;
-                        }
-                    }
-                    let mut t = totals.lock().unwrap();
-                    t.1 += 1;
-                    if t.4.len() < 3 {
-                        t.4.push(json!({"file": files[fi].name, "bytes": files[fi].bytes.len(), "cases": total_cases, "first_mutations": ["clean", "truncate to 0", "truncate to 1", "..."], "kind": match files[fi].kind { Kind::Csv => "csv", Kind::Parquet(Some(_)) => "parquet (harness writer)", Kind::Parquet(None) => "parquet (repository testdata)" }}));
-                    }
-                }
-            });
-        }
-    });
-
-    let known = load_known(&format!("{root}/known_findings.json"));
-    let findings = findings.into_inner().unwrap();
-    let (cases_run, files_done, counters, distinct, samples) = totals.into_inner().unwrap();
-    let mut violations = 0u64;
-    let mut known_hits = 0u64;
-    let replay_dir = std::env::var("VERIF_REPLAY_DIR").unwrap_or_else(|_| format!("{root}/replays"));
-    let mut known_lines: std::collections::BTreeSet<String> = Default::default();
-    let mut reported = 0usize;
-    let max_report: usize = std::env::var("VERIF_MAX_REPORT").ok().and_then(|s| s.parse().ok()).unwrap_or(8);
-    for (sig, f) in &findings {
-        if let Some(k) = matches_known(&known, &f.class, &f.detail) {
-            known_hits += f.count;
-            known_lines.insert(format!("KNOWN-FINDING: property=C19 {} [{}]", k.what, k.id));
-            continue;
-        }
-        violations += 1;
-        if reported >= max_report {
-            continue;
-        }
-        reported += 1;
-        // replay file: the mutated file and the script, self-contained
-        let base = &files[f.file];
-        let worker_cases = {
-            let clean = run_scenario(&scenario_for(base, &Mutation::None, 0), Chooser::generating(Rng::new(0)), None);
-            let io_calls: u64 = clean.io_stats.iter().filter(|(k, _)| !k.starts_with("fault.") && !k.contains('.')).map(|(_, v)| *v).sum();
-            cases(base, io_calls)
-        };
-        let m = worker_cases.get(f.case).cloned().unwrap_or(Mutation::None);
-        let sc = scenario_for(base, &m, f.case);
-        let file = ReplayFile {
-            format: 1,
-            property: "C19".into(),
-            class: f.class.clone(),
-            layer: "L1-child".into(),
-            seed,
-            run: (f.file * 1_000_000 + f.case) as u64,
-            tier: tier.to_string(),
-            scenario: scenario_to_file(&sc),
-            choices: vec![],
-            session: 0,
-            stmt: 2,
-            expect: Expect::Completes,
-            observed: format!("{} x{} ({:?} on {})", sig, f.count, m, base.name),
-            detail: f.detail.clone(),
-            trace_digest: String::new(),
-        };
-        let path = write_replay(&replay_dir, &file).unwrap_or_else(|e| format!("<write failed: {e}>"));
-        println!("VIOLATION property=C19 replay={path}");
-        println!("  class={} count={} file={} case={} mutation={:?}", f.class, f.count, base.name, f.case, m);
-        println!("  {}", f.detail.chars().take(400).collect::<String>());
+impl CaseSource for C19Source {
+    fn name(&self) -> &'static str {
+        "c19"
     }
-    for l in &known_lines {
-        println!("{l}");
+    fn property(&self) -> &'static str {
+        "C19"
     }
-    let wall = start.elapsed().as_secs_f64();
-    let nontrivial = distinct.len() as u64 + findings.len() as u64;
-    let ev = json!({
-        "property_id": "C19", "tier": if thorough { "thorough" } else { "quick" }, "seed": seed, "level": "fault_enumeration",
-        "coverage": {
-            "evaluations": cases_run, "distinct_nontrivial": nontrivial,
-            "rule": "per base file (harness-written Parquet files <= 14 rows x <= 3 columns over all types/encodings/codecs/page versions, generated CSV files, the repository's small Parquet test files): the clean file, EVERY truncation length, EVERY byte position x {0x00, 0xFF, b^0x01, b^0x80 (+ quote, newline for CSV)}, every metadata lie of the harness writer (30 fields: counts, sizes, offsets, type/codec/encoding ids, level lengths, dictionary size and bit width, delta-binary-packed header, footer length) x {-1, 0, 1, 7, 2^20, 2^31-1, 2^63-1}, an injected I/O error at every I/O call, and 1/2/3/7-byte trickle reads with Pending I/O. Each case = SELECT * (+ column_metadata, rowgroup_metadata for Parquet) + a probe statement, in a child process with RLIMIT_AS 6 GiB, step budget 400k, I/O-call budget 300k, 40 s silence limit. Non-trivial = the outcome (rows digest or error text) differs from the clean file's outcome, or the case is a violation; distinct = distinct (file, outcome digest).",
-            "samples": samples, "exhaustive": true,
-            "files": files_done, "outcomes": counters, "distinct_violation_signatures": findings.len(), "known_findings_hit": known_hits,
-            "runs_per_hour": (cases_run as f64 / wall.max(1e-9) * 3600.0) as u64,
-            "faults_injected": {"truncation": "every length", "byte_set": "every position x 4-6 values", "metadata_lie": "30 fields x 7 values (harness-written files)", "io_error": "every I/O call", "trickle_read_pending": "4 granularities"},
-            "components_real": ["glaredb_parser", "glaredb_core", "glaredb_ext_csv", "glaredb_ext_parquet"],
-            "components_stub": ["thread pool (L1 SimRuntime)", "filesystems (SimFs)", "wall clock"],
-        },
-        "assumptions": ["exhaustive per file for the truncation and single-byte families; the set of base files is sampled", "a violation signature = class + message with digits masked + panic location; one replay file per signature"],
-        "wall_s": wall, "violations": violations,
-    });
-    let evp = std::env::var("VERIF_EVIDENCE").unwrap_or_else(|_| format!("{root}/evidence/C19.json"));
-    if let Err(e) = std::fs::write(&evp, serde_json::to_string_pretty(&ev).unwrap()) {
-        eprintln!("harness error: cannot write evidence: {e}");
-        return 2;
+    fn level(&self) -> &'static str {
+        "fault_enumeration"
     }
-    println!("C19 {tier}: files={files_done} cases={cases_run} distinct_nontrivial={nontrivial} violation_signatures={violations} known={known_hits} wall={wall:.1}s");
-    if files_done < nfiles as u64 {
-        println!("harness error: only {files_done} of {nfiles} files were completed");
-        return 2;
+    fn exhaustive(&self) -> bool {
+        true
     }
-    if violations > 0 { 1 } else { 0 }
-}
-
-/// Replay of a C19 file: run the recorded scenario in a child process so that
-/// a crash is observed rather than suffered.
-pub fn replay_child(path: &str) -> i32 {
-    let r = match crate::replay::read_replay(path) {
-        Ok(r) => r,
-        Err(e) => {
-            eprintln!("harness error: {e}");
-            return 2;
-        }
-    };
-    unsafe {
-        let lim = libc::rlimit { rlim_cur: 6 << 30, rlim_max: 6 << 30 };
-        libc::setrlimit(libc::RLIMIT_AS, &lim);
+    fn rule(&self) -> String {
+        "per base file (harness-written Parquet files <= 14 rows x <= 3 columns over all types/encodings/codecs/page versions, generated CSV files, the repository's small Parquet test files): the clean file, EVERY truncation length, EVERY byte position x {0x00, 0xFF, b^0x01, b^0x80 (+ quote, newline for CSV)}, every metadata lie of the harness writer (30 fields: counts, sizes, offsets, type/codec/encoding ids, level lengths, dictionary size and bit width, delta-binary-packed header, footer length) x {-1, 0, 1, 7, 2^20, 2^31-1, 2^63-1}, an injected I/O error at every I/O call, and 1/2/3/7-byte trickle reads with Pending I/O. Each case = SELECT * (+ column_metadata, rowgroup_metadata for Parquet) + a probe statement, in a child process with RLIMIT_AS 6 GiB, step budget 400k, I/O-call budget 300k, 40 s silence limit. Non-trivial = the outcome (rows digest or error text) differs from the clean file's outcome, or the case is a violation; distinct = distinct (file, outcome digest).".into()
     }
-    let sc = crate::replay::scenario_from_file(&r.scenario);
-    let rep = run_scenario(&sc, Chooser::generating(Rng::new((r.run % 1_000_000) as u64)), None);
-    let bad = match &rep.end {
-        RunEnd::Completed => rep.fs_budget_exceeded || rep.outcomes[0].iter().any(|o| matches!(o.outcome, Outcome::Panic { .. })),
-        _ => true,
-    };
-    println!("child: end={:?} outcomes={:?}", rep.end, rep.outcomes[0].iter().map(|o| match &o.outcome { Outcome::Rows(t) => format!("rows:{}", t.rows.len()), Outcome::Error { msg, .. } => format!("error:{}", crate::check::expect::first_line(msg)), Outcome::Panic { msg } => format!("PANIC:{msg}"), Outcome::Dropped { .. } => "dropped".into() }).collect::<Vec<_>>());
-    if bad { 1 } else { 0 }
-}
-
-pub fn replay(path: &str) -> i32 {
-    let exe = std::env::current_exe().expect("exe");
-    let mut child = match Command::new(exe).arg("c19-replay-child").arg(path).stdout(Stdio::inherit()).stderr(Stdio::null()).spawn() {
-        Ok(c) => c,
-        Err(e) => {
-            eprintln!("harness error: {e}");
-            return 2;
-        }
-    };
-    let startt = Instant::now();
-    loop {
-        match child.try_wait() {
-            Ok(Some(st)) => {
-                if st.success() {
-                    println!("replay of {path}: the recorded violation did not reproduce");
-                    return 0;
-                }
-                println!("VIOLATION property=C19 replay={path}");
-                println!("  child status: {st:?}");
-                return 1;
-            }
-            Ok(None) => {
-                if startt.elapsed() > Duration::from_secs(60) {
-                    let _ = child.kill();
-                    println!("VIOLATION property=C19 replay={path}");
-                    println!("  child silent for 60 s (hang)");
-                    return 1;
-                }
-                std::thread::sleep(Duration::from_millis(50));
-            }
-            Err(e) => {
-                eprintln!("harness error: {e}");
-                return 2;
-            }
-        }
+    fn assumptions(&self) -> Vec<String> {
+        vec!["exhaustive per file for the truncation and single-byte families; the set of base files is sampled".into(), "a violation signature = class + message with digits masked + panic location; one replay file per signature".into()]
+    }
+    fn extra_evidence(&self) -> serde_json::Value {
+        json!({"faults_injected": {"truncation": "every length", "byte_set": "every position x 4-6 values", "metadata_lie": "30 fields x 7 values (harness-written files)", "io_error": "every I/O call", "trickle_read_pending": "4 granularities"}})
+    }
+    fn num_jobs(&self, seed: u64, thorough: bool) -> usize {
+        base_files(seed, thorough).len()
+    }
+    fn job(&self, seed: u64, thorough: bool, idx: usize) -> Option<Box<dyn Job>> {
+        let file = base_files(seed, thorough).into_iter().nth(idx)?;
+        // clean run first: its I/O call count sizes the I/O error family
+        let clean = run_scenario(&scenario_for(&file, &Mutation::None, 0), Chooser::generating(Rng::new(0)), None);
+        let io_calls: u64 = clean.io_stats.iter().filter(|(k, _)| !k.starts_with("fault.") && !k.contains('.')).map(|(_, v)| *v).sum();
+        let cases = cases(&file, io_calls);
+        Some(Box::new(C19Job { file, cases }))
     }
 }
